@@ -25,5 +25,6 @@ Extraction "model.ml" peval_q geval_q lp_get_q lp_norm2_q lp_degree_q lp_parity_
   check_resp_val resp_dists
   check_completion unit_residual
   check_pcompletion corner_norm_q check_c02 corner_norm_i
-  p2l_q c2p_q p2c_q ptlf_q check_p2l check_p2c lp_same.
+  p2l_q c2p_q p2c_q ptlf_q check_p2l check_p2c lp_same
+  sym_full_q check_jac_f check_jac_df_col jac_df_col check_im_target im_target_norm.
 Cd "..".
